@@ -247,6 +247,24 @@ def _ident(b):
     return b
 
 
+def _nbr(b):
+    """a window function that *uses* its halo on both sides: out[i] = b[i-1] + b[i] + b[i+1]; the two end positions, which
+    lack a neighbour inside the block, double themselves (with a halo of depth >= 1 they are trimmed away).  Needs len >= 2."""
+    return np.concatenate([b[:1] + b[:1], b[:-2] + b[1:-1] + b[2:], b[-1:] + b[-1:]], axis=0)
+
+
+_nbr.__symx_kernel__ = True
+
+
+def _nbr2(b):
+    """the same with reach 2: out[i] = b[i-2] + b[i] + b[i+2]; two positions at either end double themselves (trimmed away
+    under a halo of depth >= 2).  Needs len >= 4."""
+    return np.concatenate([b[:2] + b[:2], b[:-4] + b[2:-2] + b[4:], b[-2:] + b[-2:]], axis=0)
+
+
+_nbr2.__symx_kernel__ = True
+
+
 def _ov_world(E):
     from . import catalog
 
@@ -433,9 +451,90 @@ def _program_instances(tier):
                                   "MapOverlap/OverlapInternal or native kernels", select=lambda name: "sliding_window_view" in name)
 
 
+def inst_map_overlap_sliced(blocks, kind, depth=None, start=None, hi=None, within_first=False, chunks=None):
+    """map_overlap(f, x, depth, boundary)[a:b] with a window function that reads its right neighbour: the slice the
+    optimizer pushes through MapOverlap (halo-expanded window of the input; refused where a periodic halo would wrap)
+    selects the same elements as slicing the full result"""
+    def body(E):
+        from . import catalog
+        import dask_array._overlap as OVm
+
+        w = _ov_world(E)
+        p = catalog.source(w, E, "x", blocks, hi=hi, chunks=None if chunks is None else [tuple(chunks)])
+        X = p.ref
+        n = X.shape[0]
+        d = E.int("depth", 1) if depth is None else depth
+        E.assume(d <= n)
+        E.assume(n >= 2)
+        reach = 2 if (kind == "periodic" and depth == 2) else 1  # the stencil reads as far as the halo is deep
+        node = w.space.make(OVm.MapOverlap, p.node, _nbr2 if reach == 2 else _nbr, [{0: d}], [{0: kind}], True, True, {"dtype": "f8"},
+                            _symx_attrs=dict(_meta=np.empty((0,))))
+        a, b = (E.int("a") if start is None else start), E.int("b")
+        if chunks is not None:
+            # concrete chunking: the stop is enumerated by forking (every value decided separately), so that the culling gate of
+            # the pushdown is a concrete decision on every path, as it is in a real run
+            E.assume(AND(b >= 0, b <= n))
+            b = int(b)
+        if within_first:
+            # the window lies in the first block, so the pushdown's "culls a whole block" gate opens
+            E.assume(AND(b >= 0, b <= p.node.chunks[0][0]))
+        coll = w.fn(catalog.NC, "new_collection")(node)
+        out = coll[E.slice(a, b, None)]
+        Xp = _padded(X, d, kind)
+        if kind == "none":
+            full = SArr((n,), lambda idx: z3.If(z3.Or(idx[0] == 0, idx[0] == _z(n) - 1), 2 * X._at((idx[0],)),
+                                                X._at((idx[0] - 1,)) + X._at((idx[0],)) + X._at((idx[0] + 1,))))
+        else:
+            full = SArr((n,), lambda idx: Xp._at((idx[0] + _z(d) - reach,)) + Xp._at((idx[0] + _z(d),)) + Xp._at((idx[0] + _z(d) + reach,)))
+        ref = full[E.slice(a, b, None)]
+        for stage in ("materialized", "materialized_off"):
+            m = catalog.stages(E, w, out.expr, {stage})[stage]
+            dsk = catalog._layers(m)
+            whole, r = run_blocks(E, dsk, m._name, out.expr.chunks, label=stage)
+            same_array(E, whole, ref, label=f"{stage}-sliced-window", skolem=f"p{stage[-1]}")
+
+    def api(values):
+        import dask_array as da
+
+        cs = (tuple(values[f"x0_{i}"] for i in range(blocks[0])) if chunks is None else tuple(chunks),)
+        n, d, a, b = sum(cs[0]), values.get("depth", depth), values.get("a", start), values["b"]
+        if n > 5000 or d > n:
+            return dict(ok=False, detail="outside API replay range; unit-level replay stands")
+        data = np.arange(n, dtype="f8") ** 2
+        x = da.from_array(data, chunks=cs)
+
+        reach = 2 if (kind == "periodic" and depth == 2) else 1
+
+        def f(blk):
+            if reach == 2:
+                return np.concatenate([blk[:2] + blk[:2], blk[:-4] + blk[2:-2] + blk[4:], blk[-2:] + blk[-2:]])
+            return np.concatenate([blk[:1] + blk[:1], blk[:-2] + blk[1:-1] + blk[2:], blk[-1:] + blk[-1:]])
+
+        y = da.map_overlap(f, x, depth={0: d}, boundary={0: kind}, dtype="f8")
+        full = y.compute(scheduler="sync")
+        got = y[a:b].compute(scheduler="sync")
+        return dict(ok=bool(np.array_equal(got, full[a:b])), detail=f"chunks={cs} depth={d} kind={kind} [{a}:{b}] got={got[:8].tolist()} "
+                                                                    f"want={full[a:b][:8].tolist()}")
+
+    nm = "x".join(map(str, blocks))
+    return Instance(f"map_overlap_sliced[blocks={nm},boundary={kind},depth={'symbolic' if depth is None else depth},"
+                    f"start={'symbolic' if start is None else start},sizes<={hi}{',window in block 0' if within_first else ''}{',chunks=' + str(tuple(chunks)) if chunks else ''}]", body,
+                    dict(blocks=blocks, boundary=kind, depth=depth, start=start, max_size=hi), unit="MapOverlap._accept_slice + _lower", api_replay=api, cost=30,
+                    wall_s=900)
+
+
 def instances(tier):
     q = tier == "quick"
     out = _program_instances(tier)
+    # (reflect: the pushed window's mirrored halo makes z3 run past 900 s -- not included, stated)
+    for kind in ("periodic", "none"):
+        out.append(inst_map_overlap_sliced((1,), kind, depth=2))
+        out.append(inst_map_overlap_sliced((2,), kind, depth=2, start=1))
+        # whole blocks are culled, so the push fires: start inside the left halo / interior, every stop
+        out.append(inst_map_overlap_sliced((3,), kind, depth=2, start=1, chunks=(5, 5, 5)))
+        out.append(inst_map_overlap_sliced((3,), kind, depth=2, start=6, chunks=(5, 5, 5)))
+        if not q:
+            out.append(inst_map_overlap_sliced((2,), kind))
     for m in ([2, 3, 4] if q else [2, 3, 4, 5]):
         out.append(inst_sliding((m,), 0, "sum"))
     out.append(inst_sliding((3,), 0, "mean"))
